@@ -161,9 +161,26 @@ def transposeIdx (bidx : Pattern) : List (Option Nat) :=
   bidx.map (fun e =>
     ((bidx.zipIdx).foldl (fun acc (f, k) => if f = (e.2, e.1) then some k else acc) none))
 
-/-- `sequential_bidx` -/
-def MLStructure.sequentialBidx (S : MLStructure) : List (List Nat) :=
-  (S.bs.zip S.bidx).map (fun (b, bx) => bx.map (fun e => b.1 * e.1 + e.2))
+/-- `sequential_bidx`: the per-level patterns with ravelled indices.  `asCoded = true` reproduces the pinned
+source line `self.bs[j][0] * self.bidx[j][:,0] + self.bidx[j][:,1]` (stride = number of block ROWS);
+`false` is the row-major ravel `bs[j][1] * i + j` that `reindex_from_multilevel` / `reindex_from_reordered`
+decode (repaired in /repo). -/
+def MLStructure.sequentialBidx (S : MLStructure) (asCoded : Bool := false) : List (List Nat) :=
+  (S.bs.zip S.bidx).map (fun (b, bx) => bx.map (fun e => (if asCoded then b.1 else b.2) * e.1 + e.2))
+
+/-- matrix position requested by `ReorderedTensorGenerator(multiasm, S)` for the data-tensor index `μ`:
+`Ms[k] = sparsidx[k][μ[k]]`, then `reindex_from_multilevel(Ms, bs)` -/
+def MLStructure.generatorEntry (S : MLStructure) (asCoded : Bool) (μ : List Nat) : Nat × Nat :=
+  reindexFromMultilevel (((S.sequentialBidx asCoded).zip μ).map (fun (sm : List Nat × Nat) => sm.1.getD sm.2 0)) S.bs
+
+/-- matrix position requested by `ReorderedMatrixGenerator(multiasm, S)` (two levels) for entry `(i, j)`:
+`reindex_from_reordered(sparsidx[0][i], sparsidx[1][j], n1, m1, n2, m2)` with `n1, m1 = bs[0]`, `n2, m2 = bs[1]` -/
+def MLStructure.generatorEntry2 (S : MLStructure) (asCoded : Bool) (i j : Nat) : Nat × Nat :=
+  match S.bs with
+  | [(n1, m1), (n2, m2)] =>
+      let sb := S.sequentialBidx asCoded
+      reindexFromReordered ((sb.getD 0 []).getD i 0) ((sb.getD 1 []).getD j 0) n1 m1 n2 m2
+  | _ => (0, 0)
 
 /-! ### banded / dense / knot-vector sparsity -/
 
